@@ -34,7 +34,7 @@ GATES = {
     "zero_variance_window": 1,
     "width_equals_window": 1,
     "right_volume_checked": 5,
-    "multiband": 2, "right_bands_in_another_order": 1, "zncc_on_a_faint_texture_over_a_high_level": 1, "zncc_with_nodata_pixels_holding_nan_samples": 2,
+    "multiband": 2, "right_bands_in_another_order": 1, "matching_cost_object_reused_over_refilled_buffers": 5, "zncc_on_a_faint_texture_over_a_high_level": 1, "zncc_with_nodata_pixels_holding_nan_samples": 2,
     "roi_offset_coordinates": 2,
     "costs_compared": 100000,
 }
@@ -333,5 +333,35 @@ def run_case(case, ctx):
         exp_r, disps_r = ref.reference_cv(method, R, L, rdmin, rdmax, w, subpix, rmsk, lmsk)
         compare(ctx, case, desc, "right", rcv, exp_r, disps_r, method, rcv.attrs, R, L, w)
         ctx.gate("right_volume_checked")
+    # step-by-step use of the API (as_an_api.rst): ONE matching-cost object serves two scenes, the second one written into the
+    # very numpy buffers of the first (what a tiling driver does); the volumes must be those a new object computes
+    if rows * cols <= 2500 and (rows + 3 * cols + w) % 3 == 0 and not desc["nan_nodata"]:
+        from pandora import matching_cost as mcmod
+        from pandora.criteria import validity_mask as vmask
+
+        def api(obj, l_, r_):
+            dmn, dmx = l_["disparity"].sel(band_disp="min").data, l_["disparity"].sel(band_disp="max").data
+            grid = obj.allocate_cost_volume(l_, (dmn, dmx), cfg)
+            grid = vmask(l_, r_, grid)
+            cvx = obj.compute_cost_volume(l_, r_, grid)
+            obj.cv_masked(l_, r_, cvx, dmn, dmx)
+            return cvx
+
+        mc_obj = mcmod.AbstractMatchingCost(**cfg["pipeline"]["matching_cost"])
+        l2, r2 = gen.deep_copy_ds(lcopy), gen.deep_copy_ds(rcopy)
+        cv_a = api(mc_obj, l2, r2)
+        ctx.gate("matching_cost_object_reused_over_refilled_buffers")
+        if not gen.same(cv_a["cost_volume"].data, lcv["cost_volume"].data):
+            ctx.violation("step-by-step-api-differs-from-the-pipeline", f"{gen.first_diffs(lcv['cost_volume'].data, cv_a['cost_volume'].data, 3)} "
+                          "(a = pipeline, b = step-by-step calls)", case, situation="first-use", desc=desc)
+        rng2 = ctx.rng("c02-refill", case.get("part"), case.get("i"), case.get("what"), case.get("method"))
+        l2["im"].data[...] = np.roll(np.asarray(lcopy["im"].data), 2, axis=-1)[..., ::-1, :]
+        r2["im"].data[...] = np.asarray(rcopy["im"].data)[..., ::-1, :] + np.float32(rng2.integers(1, 4))
+        cv_b = api(mc_obj, l2, r2)
+        cv_ref = api(mcmod.AbstractMatchingCost(**cfg["pipeline"]["matching_cost"]), gen.deep_copy_ds(l2), gen.deep_copy_ds(r2))
+        for v_ in ("cost_volume", "validity_mask"):
+            if not gen.same(cv_b[v_].data, cv_ref[v_].data):
+                ctx.violation("reused-matching-cost-object-differs", f"{v_}: {gen.first_diffs(cv_ref[v_].data, cv_b[v_].data, 3)} (a = new object, "
+                              "b = the object that served the previous scene, buffers refilled in place)", case, situation=v_, desc=desc)
     if ctx.evaluations <= 2:
         ctx.sample({"case": desc, "finite_costs": int((~np.isnan(exp)).sum()), "nan_costs": int(np.isnan(exp).sum())})
